@@ -28,7 +28,7 @@ Pool == [k \in 1..Len(PoolText) |->
 NP == Len(PoolText)
 
 ASSUME InitRegisters
-ASSUME TLCSet(3, Pool)
+ASSUME TLCSet(3, Norm(Pool))
 
 RECURSIVE Pow(_, _)
 Pow(b, e) == IF e = 0 THEN 1 ELSE b * Pow(b, e - 1)
